@@ -1593,7 +1593,9 @@ class Emitter:
             if c is not None:
                 return "(%s =? %s)" % (term, c[0])
             en = self.v.get("enums", {}).get(p.segs[-2]) if len(p.segs) >= 2 else (self.v["enums"][ty[1]] if ty[0] == "enum" else None)
-            if en is None:
+            if en is None and len(p.segs) == 2 and p.segs[0] == "Self" and self.self_struct is not None and ty == ("enum", self.self_struct):
+                en = self.v.get("enums", {}).get(self.self_struct)      # `Self::Variant` inside an (inlined) method of the enum
+            if en is None or p.segs[-1] not in en["variants"]:
                 raise EmitError("pattern path %s" % "::".join(p.segs))
             return "(%s %s %s)" % (en["eqb"], term, en["variants"][p.segs[-1]])
         if k == "por":
